@@ -60,7 +60,7 @@ func drawFlags(r *rng, rules []string, lr bool) []string {
 		f = append(f, "-support-left-recursion")
 	}
 	if r.chance(1, 8) {
-		f = append(f, "-receiver-name", r.pick([]string{"p", "cur", "self"}))
+		f = append(f, "-receiver-name", r.pick([]string{"p", "cur", "self", "p", "cur", "", "x y", "func", "c.d", "é", "_", "l1"}))
 	}
 	if r.chance(1, 10) {
 		f = append(f, "-x")
@@ -76,6 +76,9 @@ func drawFlags(r *rng, rules []string, lr bool) []string {
 		}
 		if r.chance(1, 12) {
 			names = append(names, "NoSuchRule")
+		}
+		if r.chance(1, 8) {
+			names = append(names, "", names[0], " "+names[0])
 		}
 		f = append(f, "-alternate-entrypoints", strings.Join(names, ","))
 	}
@@ -172,7 +175,7 @@ func mutateGrammar(r *rng, src []byte) []byte {
 		case 6: // truncate
 			s = s[:r.intn(len(s)+1)]
 		case 7: // append a throw/recover rule and reference shapes the optimizer sees
-			s += r.pick([]string{"\nXx <- 'x' %{e} //{e} 'y'\n", "\nXx <- Yy 'x'\n", "\nXx <- Xx 'x' / 'y'\n", "\nXx <- &Xx 'x'\n", "\nXx <- ('a' / 'b' / [c-d] / 'e'i)* !.\n", "\nXx <- l:'a' l:'b' { return nil, nil }\n"})
+			s += r.pick([]string{"\nXx <- 'x' %{e} //{e} 'y'\n", "\nXx <- Yy 'x'\n", "\nXx <- Xx 'x' / 'y'\n", "\nXx <- &Xx 'x'\n", "\nXx <- ('a' / 'b' / [c-d] / 'e'i)* !.\n", "\nXx <- l:'a' l:'b' { return nil, nil }\n", "\nXx <- l:&'a' m:!'b' n:&{ return true, nil } 'c' { return nil, nil }\n", "\nXx <- 'a' / \n", "\nXx <- !Xx 'a' / &Xx 'b'\n", "\nparser <- 'p' current\ncurrent <- 'c' grammar?\ngrammar <- 'g'\n", "\nXx <- \"" + strings.Repeat("long literal ", 400) + "\"\n", "\nXx <- ()\n", "\nXx <- ( )* \n", "\nXx <- 'a'** 'b'?? 'c'+*\n", "\nXx \"\" <- 'a'\n", "\nXx <- [^]* [ ]i . \n"})
 		case 8: // replace a literal quote style
 			s = strings.Replace(s, "\"", "`", 1)
 		case 9, 10: // replace a terminal by a lexically tricky one
